@@ -298,6 +298,27 @@ def check_cast_ranges(F, rep):
                 n += 1
                 if _overflowing_cast(src, dst):
                     bad.setdefault(b["path"], F.loc(b, node))
+                if (src, dst) == ("u32", "f32"):
+                    # 32 bits into a 24-bit significand: u32::MAX as f32 is 2^32.  (The 64/128-bit sources lose bits too, but into f64 and the
+                    # property allows exactly that: 53 significant bits.)
+                    rep.fail("CAST-RANGE", b["path"] + " u32->f32", "u32 as f32 rounds to 24 bits (u32::MAX becomes 2^32): the 32-bit conversions need f64 arithmetic", F.loc(b, node))
+    # CAST-NARROW: the algebra also treats `x as f32` of an f64 as the identity.  A narrowing float cast is harmless only as the last step of a
+    # conversion whose *result* is f32; inside a conversion to an integer it rounds the scale factor or the product before the nearest
+    # integer is taken (`u32::MAX as f64 as f32` is 2^32, not 2^32 - 1)
+    narrow = 0
+    for b in F.bodies:
+        if not b["file"].endswith("stimulus.rs") or "::test" in b["path"]:
+            continue
+        for node, _p in facts.walk(b["body"]):
+            if node.get("k") == "cast" and isinstance(node.get("e"), dict) and isinstance(node["e"].get("t"), int) \
+                    and F.S[node["e"]["t"]] == "f64" and F.S[node["t"]] == "f32":
+                narrow += 1
+                res_ty = F.ty(b["body"])
+                if res_ty != "f32":
+                    rep.fail("CAST-NARROW", b["path"], "an f64 value is narrowed to f32 inside a conversion whose result is %s: the value is rounded to 24 bits "
+                             "before the integer is formed" % res_ty, F.loc(b, node))
+    rep.ob("CAST-NARROW", "f64 -> f32 casts in stimulus.rs", True, "%d narrowing casts, each the last step of a conversion to f32" % narrow)
+    rep.floor("f64 -> f32 casts in stimulus.rs", narrow, 4)
     for path, loc in sorted(bad.items()):
         rep.fail("CAST-RANGE", path, "casts u128 to f32: u128::MAX as f32 is +infinity, so the quotient by it is 0 (NaN at the top of the range) instead of x / MAX", loc)
     rep.ob("CAST-RANGE", "integer -> float casts in stimulus.rs", not bad, ("%d casts, none from a type whose maximum rounds to infinity in the target float" % n)
